@@ -126,6 +126,12 @@ impl ComposeCommand {
                 if self.wat {
                     println!();
                 }
+
+                // stdout is line-buffered: without this, whatever follows the last newline
+                // byte would only be written at exit, where a failure goes unreported
+                std::io::stdout()
+                    .flush()
+                    .context("failed to write to stdout")?;
             }
         }
 
